@@ -58,7 +58,7 @@ PROPS = {
             [rnd("both", "all", 30000, 80), builds("pq", 6), builds("dpq", 6)]),
     ),
     "C05": dict(
-        theorems=[],
+        theorems=['C05_pq_cost', 'C05_dpq_cost'],
         gens=tiers(
             [rnd("both", "core", 200, 1500, keys=1000, prios="wide"), rnd("both", "bulk", 300, 200, keys=200, prios="wide"),
              rnd("both", "core", 1500, 60)],
@@ -83,7 +83,7 @@ PROPS = {
             [rnd("both", "iter", 15000, 80), rnd("both", "bulk", 15000, 80), builds("dpq", 6)]),
     ),
     "C09": dict(
-        theorems=[],
+        theorems=['C09_itermut', 'C09_itermut_exact', 'C09_itermut_fused', 'C09_itermut_adaptor_len'],
         gens=tiers(
             [rnd("both", "iter", 5000, 40)],
             [rnd("both", "iter", 40000, 60)]),
@@ -107,7 +107,7 @@ PROPS = {
             [rnd("both", "all", 30000, 80)]),
     ),
     "C13": dict(
-        theorems=[],
+        theorems=['C13_dq', 'C13_dq_adaptor_len', 'C13_sorted_adaptor_len'],
         gens=tiers(
             [rnd("both", "iter", 5000, 40)],
             [rnd("both", "iter", 40000, 60)]),
